@@ -40,6 +40,9 @@ CLAIMED = {
  "C10": ("seq", "exploration",
          "Seeded deterministic simulation of management histories (load-all, load-for-resource, append, clear, clear-for-resource) per family over pools of valid, invalid and equal-but-differently-identified rules with seeded hash order; reported rules, live controller/breaker lists and (flow, isolation) behaviourally measured enforcement compared with a reference map after every call; calls under catch_unwind with a health probe.",
          "DESIGN.md §4 C10", "deterministic simulation: seeded management histories and hash order vs reference rule map", SEQ_NOTE),
+ "C12": ("seq", "exploration",
+         "Seeded walk over the rule space of all five families (every enum value incl. unregistered custom strategies, boundary and out-of-range numerics, NaN, empty/blank names) through every loading entry point, followed by entries with batch {0,1,2,10^6}, argument lists and attachments, virtual time steps and exits; every call under catch_unwind and the run watchdog, each run isolated on its own thread with a health probe of all managers afterwards (a poisoned lock is visible to this run and to no other).",
+         "DESIGN.md §4 C12", "deterministic simulation: isolated runs with virtual time, catch_unwind + watchdog + health probe over a seeded rule-space walk", SEQ_NOTE),
 }
 
 PENDING_REASON = "check not built yet in this round (design in DESIGN.md §4); not claimed until it runs"
